@@ -219,6 +219,36 @@ fn check_expression(case: &Value, obs: &mut Obs) -> Result<(), String> {
     Ok(())
 }
 
+/// filter / all / some / none over long collections with the identity predicate: every element is judged by the table,
+/// however many elements precede it and whatever they look like
+fn check_long_positions(case: &Value, obs: &mut Obs) -> Result<(), String> {
+    let xs: Vec<Value> = case["xs"].as_array().cloned().unwrap_or_default();
+    let data = json!({"xs": xs});
+    let id = json!({"var": ""});
+    let coll = json!({"var": "xs"});
+    let verdicts: Vec<bool> = xs.iter().map(coerce::truthy).collect();
+    let kept: Vec<Value> = xs.iter().zip(verdicts.iter()).filter(|(_, t)| **t).map(|(v, _)| v.clone()).collect();
+    let what = format!("{} elements", xs.len());
+    let v = json!(what);
+    expect(json!({"filter": [coll, id]}), &data, &Value::Array(kept), "filter", &v, "long collection", obs)?;
+    expect(json!({"all": [coll, id]}), &data, &json!(!xs.is_empty() && verdicts.iter().all(|t| *t)), "all", &v, "long collection", obs)?;
+    expect(json!({"some": [coll, id]}), &data, &json!(verdicts.iter().any(|t| *t)), "some", &v, "long collection", obs)?;
+    expect(json!({"none": [coll, id]}), &data, &json!(!verdicts.iter().any(|t| *t)), "none", &v, "long collection", obs)?;
+    expect(json!({"map": [coll, {"!!": [id]}]}), &data, &Value::Array(verdicts.iter().map(|t| json!(*t)).collect()), "map of !!", &v, "long collection", obs)?;
+    obs.nt(&format!("{} elements", if xs.len() >= 256 { "256+" } else if xs.len() >= 64 { "64-255" } else { "under 64" }));
+    Ok(())
+}
+
+fn gen_long_positions() -> BoxedStrategy<Value> {
+    (proptest::collection::vec(proptest::sample::select(corner_values()), 2..=4), proptest::sample::select(vec![10usize, 63, 64, 65, 70, 100, 128, 129, 255, 256, 257, 300]), any::<u16>())
+        .prop_map(|(pool, n, odd)| {
+            let at = (odd as usize) % n;
+            let xs: Vec<Value> = (0..n).map(|i| if i == at || i % 11 == 7 { pool[1 % pool.len()].clone() } else if i % 13 == 5 { pool[pool.len() - 1].clone() } else { pool[0].clone() }).collect();
+            json!({"xs": xs})
+        })
+        .boxed()
+}
+
 fn gen_expression() -> BoxedStrategy<Value> {
     let cfg = crate::gen::rules::Cfg::all_ops().leaf(prop_oneof![2 => gen::values(), 1 => proptest::sample::select(corner_values())].boxed()).poison(0).bad_arity(0).depth(2);
     gen::case2(crate::gen::rules::rooted(cfg), gen::data_docs())
@@ -250,6 +280,18 @@ pub fn property() -> Property {
                 check: check_operator_result,
                 quick: 0,
                 thorough: 0,
+                small_stack: false,
+            },
+            Sub {
+                name: "long_collections",
+                about: "filter / all / some / none / map-of-!! with the identity predicate over collections of 10-300 corner values (mostly one value, others interspersed, e.g. 0 among \"0\"s): the outcome is computed element by element from the table.",
+                nontrivial: "every case.",
+                strategy: Some(gen_long_positions),
+                fixed: None,
+                fixed_exhaustive: false,
+                check: check_long_positions,
+                quick: 4_000,
+                thorough: 200_000,
                 small_stack: false,
             },
             Sub {
